@@ -41,6 +41,17 @@ impl Arena {
         }
     }
 
+    /// Makes the given arena the current one until the returned guard is dropped, then restores
+    /// the arena that was current before.
+    #[cfg(feature = "sandboxed-arenas")]
+    pub fn enter(arena: &Arc<RwLock<ArenaMap>>) -> RestoreArenaOnDrop {
+        let new_arena = Arc::downgrade(arena);
+        RestoreArenaOnDrop(
+            MAP.try_with(|arena| arena.borrow_mut().replace(new_arena))
+                .ok(),
+        )
+    }
+
     #[track_caller]
     pub fn with<U>(fun: impl FnOnce(&ArenaMap) -> U) -> U {
         #[cfg(not(feature = "sandboxed-arenas"))]
@@ -120,6 +131,19 @@ impl Arena {
 #[cfg(leptos_verif)]
 pub fn verif_len() -> usize {
     Arena::try_with(|arena| arena.len()).unwrap_or(0)
+}
+
+/// Restores the previously-current arena when dropped. See [`Arena::enter`].
+#[cfg(feature = "sandboxed-arenas")]
+pub struct RestoreArenaOnDrop(Option<Option<Weak<RwLock<ArenaMap>>>>);
+
+#[cfg(feature = "sandboxed-arenas")]
+impl Drop for RestoreArenaOnDrop {
+    fn drop(&mut self) {
+        if let Some(prev) = self.0.take() {
+            _ = MAP.try_with(|arena| *arena.borrow_mut() = prev);
+        }
+    }
 }
 
 #[cfg(feature = "sandboxed-arenas")]
